@@ -89,6 +89,8 @@ class TVNorm(Functional):
 
     def _call_operator(self, input_shape: Shape, input_dtype: DType) -> LinearOperator:
         """Construct operator required by __call__ method."""
+        # parameters the operator is built from: __call__ rebuilds it when they are changed afterwards
+        self._G_key = (self.circular, self.axes)
         G = FiniteDifference(
             input_shape,
             input_dtype=input_dtype,
@@ -111,7 +113,12 @@ class TVNorm(Functional):
         Returns:
               TV norm of `x`.
         """
-        if self.G is None or self.G.shape[1] != x.shape or self.G.input_dtype != x.dtype:
+        if (
+            self.G is None
+            or self.G.shape[1] != x.shape
+            or self.G.input_dtype != x.dtype
+            or getattr(self, "_G_key", None) != (self.circular, self.axes)
+        ):
             # Construct with concrete values even when called inside a jitted function,
             # so that the cached operator does not hold on to tracers.
             with jax.ensure_compile_time_eval():
@@ -122,6 +129,8 @@ class TVNorm(Functional):
         self, input_shape: Shape, input_dtype: DType
     ) -> Tuple[LinearOperator, LinearOperator, int, Tuple]:
         """Construct operators required by prox method."""
+        # parameters the operators are built from: prox rebuilds them when they are changed afterwards
+        self._WP_key = (self.circular, self.axes)
         axes = normalize_axes(self.axes, input_shape)
         ndims = len(axes)
         w_input_shape = (
@@ -222,7 +231,12 @@ class TVNorm(Functional):
             kwargs: Additional arguments that may be used by derived
                 classes.
         """
-        if self.WP is None or self.WP.shape[1] != v.shape or self.WP.input_dtype != v.dtype:
+        if (
+            self.WP is None
+            or self.WP.shape[1] != v.shape
+            or self.WP.input_dtype != v.dtype
+            or getattr(self, "_WP_key", None) != (self.circular, self.axes)
+        ):
             # Construct with concrete values even when called inside a jitted function,
             # so that the cached operators do not hold on to tracers.
             with jax.ensure_compile_time_eval():
